@@ -76,7 +76,7 @@ def sampleLine : P String := do
   match fwOf fw, mtOf mt with
   | some fw, some mt =>
     let cfg : Cfg Rat := { mt, isRgb, maxH, maxW, cfgMaxH := cH, cfgMaxW := cW, scale, maxStride := ms,
-                           cropH, cropW, anchor, maxInstances := maxInst, alias }
+                           cropH, cropW, anchor, maxInstances := maxInst, aliasing := alias }
     let fr : Frame Rat := { h, w, c, insts := ii }
     let hd : Heads Rat := { cmSigma := cmS, cmStride := cmSt, pafSigma := pS, pafStride := pSt, edges := ed }
     let s := sampleOf numRat fw cfg fr k
